@@ -254,7 +254,14 @@ class C06(TraceProp):
                 diff = {t: [obs['pre'][t], obs['post'][t]] for t in obs['pre'] if obs['pre'][t] != obs['post'][t]}
                 out.violations.append({'clause': 'C06.kill.trace_on_disk', 'detail': diff})
             return out
-        out = TraceProp.judge(self, case, obs, answers)
+        if case['kind'] == 'sp':
+            # the transactions after a savepoint must be versioned as if nothing had happened: every
+            # segment oracle applies
+            self.seg_fields = ('C06db', 'C01', 'C02', 'C03', 'C11')
+        try:
+            out = TraceProp.judge(self, case, obs, answers)
+        finally:
+            self.seg_fields = ('C06db',)
         if case['kind'] == 'sp':
             out.tags.append('savepoint')
             out.tags.append('sp_released' if case.get('released') else 'sp_rolled_back')
